@@ -647,3 +647,36 @@ impl<T> DataReaderEntity<T> {
         )
     }
 }
+
+// Verification hook (inert unless built by Kani with `--cfg s2e_systems_dust_dds_verif`):
+// lets the out-of-tree proof harnesses construct and observe an `InstanceState` with private fields.
+#[cfg(all(kani, s2e_systems_dust_dds_verif))]
+impl InstanceState {
+    pub(crate) fn verif_from_parts(
+        handle: InstanceHandle,
+        view_state: ViewStateKind,
+        instance_state: InstanceStateKind,
+        disposed_generation_count: i32,
+        no_writers_generation_count: i32,
+        last_received_time_stamp: Time,
+    ) -> Self {
+        Self {
+            handle,
+            view_state,
+            instance_state,
+            most_recent_disposed_generation_count: disposed_generation_count,
+            most_recent_no_writers_generation_count: no_writers_generation_count,
+            last_received_time_stamp,
+        }
+    }
+
+    pub(crate) fn verif_parts(&self) -> (ViewStateKind, InstanceStateKind, i32, i32, Time) {
+        (
+            self.view_state,
+            self.instance_state,
+            self.most_recent_disposed_generation_count,
+            self.most_recent_no_writers_generation_count,
+            self.last_received_time_stamp,
+        )
+    }
+}
